@@ -12,6 +12,8 @@ import Gts.Lemmas.Record
 import Gts.Props.C04
 import Gts.Lemmas.MarksDelAll
 import Gts.Lemmas.MarkGuardOps
+import Gts.Bridge.SeqDelete
+import Gts.Bridge.SeqSlice
 namespace Gts.C03
 open Gts Loc
 
@@ -442,5 +444,61 @@ example :
     expandAbs ((l.expand 0 (C04.rotN (-8) s.len)).normalize s.len) (s.len - 8 + 4) (s.len - 8 + 4 - s.len) = false ∧
     expandAbs (((l.expand 0 (C04.rotN (-8) s.len)).normalize s.len).expand (s.len - 8 + 4) (s.len - 8 + 4 - s.len)) 0 (-0) = false := by
   decide
+
+/-! ### the statements above, for the code AS IT IS WRITTEN NOW
+
+`Gts.Gen.seqDelete` / `seqErase` / `seqSlice` are regenerated from sequence.go on every run (go2lean/gseq.go);
+`Gts/Bridge/SeqDelete.lean` and `SeqSlice.lean` prove them equal to the model wherever Go does not panic. -/
+
+/-- **`gts.Delete` as written**: inside the sequence (`Bridge.deleteOk`) it does not panic, removes exactly the
+residues `[i, i+n)`, keeps every feature re-located by `Expand(i, -n)`, and hands `tryExpand(info, i, -n)` on -/
+theorem gen_delete_spec {ι : Type} (ops : Gen.InfoOps ι) (info : ι) (s : Seq) (i n : Int)
+    (h : Bridge.deleteOk s.len i n) :
+    Gen.seqDelete ops info s.feats s.bytes i n =
+      .ok (ops.tryExpand info i (-n), s.feats.map (fun f => { f with loc := f.loc.expand i (-n) }),
+        s.bytes.take i.toNat ++ s.bytes.drop (i + n).toNat) :=
+  Bridge.seqDelete_eq ops info s i n h
+
+/-- **`gts.Erase` as written**: Delete on the table without the non-`source` features wholly within `[i, i+n)` -/
+theorem gen_erase_spec {ι : Type} (ops : Gen.InfoOps ι) (info : ι) (s : Seq) (i n : Int)
+    (h : Bridge.deleteOk s.len i n) :
+    Gen.seqErase ops info s.feats s.bytes i n =
+      .ok (ops.tryExpand info i (-n),
+        (s.feats.filter fun f => f.key = "source" || !(f.loc.within i (i + n))).map
+          (fun f => { f with loc := f.loc.expand i (-n) }),
+        s.bytes.take i.toNat ++ s.bytes.drop (i + n).toNat) :=
+  Bridge.seqErase_eq ops info s i n h
+
+/-- **`gts.Slice` as written**, forward window `0 ≤ a ≤ b ≤ L`: no panic, exactly the residues of the window, exactly
+the overlapping features re-based (`source` completed), metadata through `trySlice` and `WithTopology(Linear)` -/
+theorem gen_slice_fwd_spec {ι : Type} (ops : Gen.InfoOps ι) (fuel : Nat) (info : ι) (s : Seq) (a b : Int)
+    (ha : 0 ≤ a) (hab : a ≤ b) (hb : b ≤ s.len) :
+    Gen.seqSlice ops (fuel + 1) info s.feats s.bytes a b =
+      .ok (ops.withTopology (ops.trySlice info a b) 0,
+        (s.feats.filter fun f => f.loc.overlap a b).map (fun f =>
+          let loc := (f.loc.expand b (b - s.len)).expand 0 (-a)
+          { f with loc := if f.key = "source" then loc.asComplete else loc }),
+        (s.bytes.drop a.toNat).take (b - a).toNat) := by
+  have hn : Bridge.sliceNorm s.len a = a ∧ Bridge.sliceNorm s.len b = b := by
+    simp only [Bridge.sliceNorm]; constructor <;> rw [if_neg (by omega)]
+  have := Bridge.seqSlice_fwd ops fuel info s a b (by rw [hn.1, hn.2]; exact hab) (by rw [hn.1, hn.2]; exact ⟨ha, hb⟩)
+  rw [this, hn.1, hn.2, slice_bytes_fwd s a b ha hab, slice_feats_fwd s a b ha hab]
+
+/-- **`gts.Slice` as written**, wrap-around window `0 ≤ b < a ≤ L`: no panic and the residues are
+`seq[a:] + seq[:b]` -/
+theorem gen_slice_wrap_bytes {ι : Type} (ops : Gen.InfoOps ι) (fuel : Nat) (info : ι) (s : Seq) (a b : Int)
+    (hb : 0 ≤ b) (hba : b < a) (haL : a ≤ s.len) (hf : a ≤ fuel + 1) :
+    ∃ i' ff, Gen.seqSlice ops (fuel + 2) info s.feats s.bytes a b =
+      .ok (i', ff, s.bytes.drop a.toNat ++ s.bytes.take b.toNat) := by
+  have hn : Bridge.sliceNorm s.len a = a ∧ Bridge.sliceNorm s.len b = b := by
+    simp only [Bridge.sliceNorm]; constructor <;> rw [if_neg (by omega)]
+  have := Bridge.seqSlice_wrap ops fuel info s a b (by rw [hn.1, hn.2]; exact hba) (by omega)
+    (by rw [hn.1, hn.2]; omega) (by rw [hn.1]; exact hf)
+  exact ⟨_, _, by rw [this, slice_bytes_wrap s a b hb hba haL]⟩
+
+-- non-vacuity: windows of a sequence of six residues
+example : Bridge.deleteOk (⟨[], [65, 67, 71, 84, 65, 67]⟩ : Seq).len 2 3 := by decide
+example : (0 : Int) ≤ 1 ∧ (1 : Int) ≤ 4 ∧ (4 : Int) ≤ (⟨[], [65, 67, 71, 84, 65, 67]⟩ : Seq).len := by decide
+example : (0 : Int) ≤ 2 ∧ (2 : Int) < 5 ∧ (5 : Int) ≤ (⟨[], [65, 67, 71, 84, 65, 67]⟩ : Seq).len ∧ (5 : Int) ≤ (4 : Nat) + 1 := by decide
 
 end Gts.C03
